@@ -48,6 +48,10 @@ def build_zone_table(zones=None, y0=2024, y1=2037):
     def off(z, t):
         return int(_dt.datetime.fromtimestamp(t, utc).astimezone(z).utcoffset().total_seconds())
 
+    def isdst(z, t):
+        d = _dt.datetime.fromtimestamp(t, utc).astimezone(z).dst()
+        return 1 if d else 0
+
     start = int(_dt.datetime(y0, 1, 1, tzinfo=utc).timestamp())
     end = int(_dt.datetime(y1, 12, 31, tzinfo=utc).timestamp())
     far = T_MAX
@@ -73,7 +77,8 @@ def build_zone_table(zones=None, y0=2024, y1=2037):
         inwin = [tr for tr in trans if tr[0] <= end]
         later = [tr for tr in trans if tr[0] > end]
         for (T, a, b) in inwin:
-            rows.append(dict(zone=zn, T=T, o1=a, o2=b, lo=T - 2 * DAY, hi=T + 2 * DAY, kind="transition"))
+            rows.append(dict(zone=zn, T=T, o1=a, o2=b, lo=T - 2 * DAY, hi=T + 2 * DAY, kind="transition",
+                             d1=isdst(z, T - 1), d2=isdst(z, T)))
         # constant stretches
         bounds = [start - 2 * DAY] + [tr[0] for tr in inwin] + [(later[0][0] if later else far + 2 * DAY)]
         offs = [off(z, start)] + [tr[2] for tr in inwin]
@@ -82,7 +87,8 @@ def build_zone_table(zones=None, y0=2024, y1=2037):
             if not later and k == len(offs) - 1:
                 hi_ = far
             if hi_ > lo_:
-                rows.append(dict(zone=zn, T=hi_ + 1, o1=offs[k], o2=offs[k], lo=lo_, hi=min(hi_, far), kind="constant"))
+                dflag = isdst(z, lo_)
+                rows.append(dict(zone=zn, T=hi_ + 1, o1=offs[k], o2=offs[k], lo=lo_, hi=min(hi_, far), kind="constant", d1=dflag, d2=dflag))
     _TABLE_CACHE[key] = rows
     return rows
 
@@ -113,6 +119,8 @@ class TimeEnv:
             self.o2 = self._col("o2")
             self.lo = self._col("lo")
             self.hi = self._col("hi")
+            self.d1 = self._col("d1")
+            self.d2 = self._col("d2")
 
     def _col(self, name):
         vals = [r[name] for r in self.rows]
@@ -156,6 +164,11 @@ class TimeEnv:
     def off(self, t):
         self.need_zone()
         return i_ite(t < self.T, self.o1, self.o2)
+
+    def isdst(self, t):
+        """tm_isdst flag of the instant t"""
+        self.need_zone()
+        return i_ite(t < self.T, self.d1, self.d2)
 
     def in_window(self, t):
         self.need_zone()
@@ -309,11 +322,32 @@ def _two_digits(v):
 # =============================================================================== struct_time
 
 
+class DatePart:
+    """year / month / day-of-month / day-of-year of the (symbolic) day number `day`: opaque, only mktime and strftime read it"""
+
+    def __init__(self, part, day):
+        self.part, self.day = part, day
+
+    def __hash__(self):
+        raise Unsupported("hash of a symbolic calendar field")
+
+    def __eq__(self, o):
+        raise Unsupported("comparison of a symbolic calendar field")
+
+    def __index__(self):
+        raise Unsupported("calendar field (%s) of a symbolic date used as a number" % self.part)
+
+    __int__ = __index__
+
+    def __format__(self, spec):
+        raise Unsupported("calendar field (%s) of a symbolic date formatted" % self.part)
+
+
 class SStructTime:
-    def __init__(self, day, h, m, s, wday=None, date_tok=None):
+    def __init__(self, day, h, m, s, wday=None, date_tok=None, isdst=-1):
         self.day, self.tm_hour, self.tm_min, self.tm_sec = day, h, m, s
         self._wday = wday
-        self.tm_isdst = -1
+        self.tm_isdst = isdst
 
     @property
     def tm_wday(self):
@@ -321,16 +355,49 @@ class SStructTime:
             self._wday = env().weekday_of_day(self.day)
         return self._wday
 
-    def _nodate(self, *a):
-        raise Unsupported("calendar fields (year/month/day) of a symbolic date")
+    def _part(self, name):
+        if self.day is None:
+            raise Unsupported("calendar field of a struct without date")
+        return DatePart(name, self.day)
 
-    tm_year = property(_nodate)
-    tm_mon = property(_nodate)
-    tm_mday = property(_nodate)
-    tm_yday = property(_nodate)
+    tm_year = property(lambda self: self._part("year"))
+    tm_mon = property(lambda self: self._part("mon"))
+    tm_mday = property(lambda self: self._part("mday"))
+    tm_yday = property(lambda self: self._part("yday"))
+
+    def _fields(self):
+        return (self.tm_year, self.tm_mon, self.tm_mday, self.tm_hour, self.tm_min, self.tm_sec,
+                DatePart("wday", self.day), self.tm_yday, self.tm_isdst)
 
     def __getitem__(self, i):
-        return [self.tm_year, self.tm_mon, self.tm_mday, self.tm_hour, self.tm_min, self.tm_sec, self.tm_wday][i]
+        return self._fields()[i]
+
+    def __iter__(self):
+        return iter(self._fields())
+
+    def __len__(self):
+        return 9
+
+
+def struct_of(arg):
+    """SStructTime from a 9-tuple whose date fields are the calendar parts of one symbolic day"""
+    if isinstance(arg, SStructTime):
+        return arg
+    if isinstance(arg, (tuple, list)) and len(arg) == 9:
+        y, mo, d = arg[0], arg[1], arg[2]
+        if all(isinstance(x, DatePart) for x in (y, mo, d)) and (y.part, mo.part, d.part) == ("year", "mon", "mday") \
+                and y.day is mo.day and mo.day is d.day:
+            for x in arg[3:6]:
+                if not isinstance(x, (int, SymInt)) or isinstance(x, bool):
+                    raise TypeError("an integer is required")
+            isd = arg[8]
+            if isinstance(isd, DatePart):
+                raise Unsupported("tm_isdst from a calendar field")
+            return SStructTime(y.day, arg[3], arg[4], arg[5], isdst=isd)
+        if not any(is_sym(x) or isinstance(x, DatePart) for x in arg):
+            return None
+        raise Unsupported("struct_time assembled from unrelated symbolic calendar fields")
+    return None
 
 
 def _is_ws(u):
@@ -427,7 +494,7 @@ class TimeModule:
         te.path.assume(_bt(te.in_window(secs)))
         local = secs + te.off(secs)
         day, h, m, s = te.decomp(local, "loc")
-        return SStructTime(day, h, m, s)
+        return SStructTime(day, h, m, s, isdst=te.isdst(secs))
 
     def gmtime(self, secs=None):
         if not E.active():
@@ -440,7 +507,7 @@ class TimeModule:
         if isinstance(secs, FL.FClock):
             secs = secs.t
         day, h, m, s = te.decomp(SymInt._coerce(secs) if isinstance(secs, int) else secs, "gmt")
-        return SStructTime(day, h, m, s)
+        return SStructTime(day, h, m, s, isdst=0)
 
     def strftime(self, fmt, st=None):
         if not E.active():
@@ -477,11 +544,18 @@ class TimeModule:
         if fmt == "%H:%M":
             h, m = _parse_hm(list(s.items))
             return SStructTime(None, h, m, 0)
+        if fmt == "%d/%m/%Y":
+            items = list(s.items)
+            if len(items) == 1 and isinstance(items[0], Tok) and items[0].tkind == "LocalDate":
+                return SStructTime(items[0].args[0], 0, 0, 0)
+            raise Unsupported("strptime %r on text that is not a rendered local date" % fmt)
         raise Unsupported("strptime format %r" % fmt)
 
     def mktime(self, st):
-        if not isinstance(st, SStructTime):
+        s0 = struct_of(st)
+        if s0 is None:
             return _time.mktime(st)
+        st = s0
         te = env()
         te.need_zone()
         if st.day is None:
@@ -493,9 +567,22 @@ class TimeModule:
         p.constrain(v >= 0)
         # the instant must exist (DST gaps are pruned) and lie in the row's window
         p.assume(_bt(b_and(i_eq(t + te.off(t), local), te.in_window(t))))
-        if all(isinstance(x, int) or (x.lo >= 0 and x.hi <= hi) for x, hi in ((st.tm_hour, 23), (st.tm_min, 59), (st.tm_sec, 59))):
+        inrange = all(isinstance(x, int) and 0 <= x <= hi or (not isinstance(x, int) and x.lo >= 0 and x.hi <= hi)
+                      for x, hi in ((st.tm_hour, 23), (st.tm_min, 59), (st.tm_sec, 59)))
+        if inrange:
             te.register_decomp(t + te.off(t), (st.day, st.tm_hour, st.tm_min, st.tm_sec))
-        return FL.FInt(t)
+        isd = st.tm_isdst
+        if isinstance(isd, int) and isd < 0:
+            return FL.FInt(t)
+        # an explicit tm_isdst: glibc interprets the fields with the offset that belongs to that flag; when the flag
+        # disagrees with what holds at that local time the result moves by the difference of the two offsets
+        flag = i_ite(isd > 0, 1, 0) if not isinstance(isd, int) else (1 if isd > 0 else 0)
+        actual = te.isdst(t)
+        off_req = i_ite(i_eq(te.d1, flag), te.o1, te.o2)
+        agree = i_eq(actual, flag)
+        known = b_or(i_eq(te.d1, flag), i_eq(te.d2, flag))
+        res = i_ite(b_or(agree, b_not(known)), t, local - off_req)
+        return FL.FInt(res)
 
     def sleep(self, *a):
         return None
